@@ -1586,6 +1586,134 @@ def run_s8(seed, tier, log):
     return res
 
 
+PYREF = r"""
+import sys, io, pickletools
+out = []
+for line in open(sys.argv[1]):
+    w = line.split()
+    if len(w) != 2:
+        continue
+    data = bytes.fromhex(w[1]) if w[1] != '-' else b''
+    # lexer level: genops decodes every opcode up to and including the first STOP; trailing bytes are not its business
+    try:
+        n = 0
+        last = None
+        for op, arg, pos in pickletools.genops(data):
+            n += 1
+            last = (op, pos)
+        lex, whole = 1, int(last is not None and last[0].name == 'STOP' and last[1] == len(data) - 1)
+        lmsg = ''
+    except Exception as e:
+        lex, whole, lmsg = 0, 0, type(e).__name__ + ':' + str(e)[:60].replace(' ', '_')
+    try:
+        pickletools.dis(data, out=io.StringIO())
+        dis, dmsg = 1, ''
+    except Exception as e:
+        dis, dmsg = 0, type(e).__name__ + ':' + str(e)[:60].replace(' ', '_')
+    print('P', w[0], 'lex=%d' % lex, 'whole=%d' % whole, 'dis=%d' % dis, lmsg or '-', dmsg or '-')
+"""
+
+
+def run_ref(seed, tier, log):
+    """the SPECIFICATION side against CPython itself: the formal lexer (Lex.lex_all) and reference machine (Ref.ref_accepts,
+    memo rules) on implementation outputs and on corrupted variants of them (flipped / dropped / inserted bytes, truncations,
+    swapped and duplicated opcodes), compared with pickletools.genops / pickletools.dis of the interpreter on this machine.
+    Direction that carries C01 / C02 / C04: whatever the formal reference accepts, CPython accepts.  The other direction is
+    reported too, minus the documented points where the properties ask for more than CPython checks."""
+    key = hashlib.sha256(('%s|%s|%d|%s|ref' % (repo_hash(), model_hash(), seed, tier)).encode()).hexdigest()[:24]
+    d = os.path.join(CACHE, key)
+    res_path = os.path.join(d, 'ref.json')
+    if os.path.exists(res_path):
+        log('ref: cached result %s' % key)
+        os.utime(d)
+        return json.load(open(res_path))
+    os.makedirs(d, exist_ok=True)
+    t0 = time.time()
+    rng = SplitMix64(seed ^ 0x4EF4EF)
+    base = [c for c in gen_cases(seed, 'quick') if c.startswith('id=g')][:(500 if tier == 'quick' else 1400)]
+    outs = []
+    for l in library_bytes(base).splitlines():
+        if l.startswith('RESULT ok '):
+            outs.append(bytes.fromhex(l.split()[2]))
+    items = []
+    for i, o in enumerate(outs):
+        items.append(('o%d' % i, o))
+        for j in range(6 if tier == 'quick' else 20):
+            b = bytearray(o)
+            kind = rng.below(7)
+            if not b:
+                continue
+            pos = rng.below(len(b))
+            if kind == 0:
+                b[pos] ^= 1 << rng.below(8)
+            elif kind == 1:
+                del b[pos]
+            elif kind == 2:
+                b.insert(pos, rng.choice([0x28, 0x30, 0x2e, 0x65, 0x75, 0x74, 0x68, 0x71, 0x94, 0x85, 0x4e, 0x32, 0x31, 0x90, 0x52, 0x62]))
+            elif kind == 3:
+                b = b[:pos]
+            elif kind == 4:
+                b = b[:pos] + b[pos:pos + 1 + rng.below(4)] + b[pos:]
+            elif kind == 5:
+                b[pos:pos + 2] = bytes(reversed(b[pos:pos + 2]))
+            else:
+                b += bytes([rng.choice([0x2e, 0x4e, 0x00, 0x30])])
+            items.append(('m%d_%d' % (i, j), bytes(b)))
+    fp = os.path.join(d, 'ref_items.txt')
+    with open(fp, 'w') as f:
+        for iid, b in items:
+            f.write('%s %s\n' % (iid, b.hex() or '-'))
+    pyp = os.path.join(d, 'pyref.py')
+    open(pyp, 'w').write(PYREF)
+    pr = subprocess.run([sys.executable, pyp, fp], stdout=subprocess.PIPE, stderr=subprocess.PIPE, text=True, timeout=1800)
+    if pr.returncode != 0:
+        raise Infra('pickletools reference run failed: ' + pr.stderr[-800:])
+    mr = subprocess.run([DRIVER, 'refcheck', fp], stdout=subprocess.PIPE, stderr=subprocess.PIPE, text=True, env=ENV, timeout=1800)
+    if mr.returncode != 0:
+        raise Infra('driver refcheck failed: ' + mr.stderr[-800:])
+    py = {}
+    for l in pr.stdout.splitlines():
+        w = l.split()
+        if w and w[0] == 'P':
+            py[w[1]] = dict(lex=w[2] == 'lex=1', whole=w[3] == 'whole=1', dis=w[4] == 'dis=1', lmsg=w[5], dmsg=w[6])
+    diffs, stats = [], dict(model_accepts=0, cpython_accepts=0, both_reject=0, lex_both=0, excused=0)
+    byid = dict(items)
+    for l in mr.stdout.splitlines():
+        w = l.split()
+        if not w or w[0] != 'R' or w[1] not in py:
+            continue
+        iid, mlex, mref, mmemo = w[1], w[2] == 'lex=1', w[3] == 'ref=1', w[4] == 'memo=1'
+        p_ = py[iid]
+        stats['model_accepts'] += mref
+        stats['cpython_accepts'] += p_['dis']
+        stats['both_reject'] += (not mref and not p_['dis'])
+        stats['lex_both'] += (mlex and p_['lex'])
+        hx = byid[iid].hex()[:120]
+        if mlex and not (p_['lex'] and p_['whole']):
+            diffs.append(dict(id=iid, step='-', what='ref-lexer-unsound', detail='the formal lexer accepts %s but pickletools.genops: %s' % (hx, p_['lmsg'])))
+        if mref and not p_['dis']:
+            diffs.append(dict(id=iid, step='-', what='ref-machine-unsound', detail='the formal reference machine accepts %s but pickletools.dis: %s' % (hx, p_['dmsg'])))
+        if p_['dis'] and p_['whole'] and not mref:
+            # where the properties deliberately ask for more than dis checks (DESIGN appendix A.6 / C02 / C04): the formal lexer's
+            # domain checks (C04) and the memo discipline "PUT-family never on a MARK / empty stack" that dis also has; everything
+            # else is a disagreement of my reading of pickletools
+            if not mlex or not mmemo:
+                stats['excused'] += 1
+            else:
+                # a reference that asks for more than CPython cannot hide a violation (it could only raise one, on a concrete
+                # output): recorded, not a broken obligation
+                stats.setdefault('stricter', []).append(hx)
+    res = dict(ok=[], diffs=diffs, props=[], stats={}, ncases=len(items), okn=len(items) - len(diffs), nops=len(items),
+               specs={iid: 'bytes ' + b.hex()[:400] for iid, b in items if any(d_['id'] == iid for d_ in diffs)},
+               samples=[dict(id=items[1][0], bytes=items[1][1].hex()[:80], cpython=py.get(items[1][0]))],
+               ref_stats={k_: (v_ if not isinstance(v_, list) else v_[:5]) for k_, v_ in stats.items()})
+    json.dump(res, open(res_path, 'w'))
+    log('ref: %d byte strings (%d implementation outputs + corrupted variants): formal reference accepts %d, pickletools.dis accepts %d, both reject %d, '
+        '%d stricter-by-design, %d disagreements, %.1fs' % (len(items), len(outs), stats['model_accepts'], stats['cpython_accepts'], stats['both_reject'],
+                                                          stats['excused'], len(diffs), time.time() - t0))
+    return res
+
+
 def run_s3(seed, tier, log):
     return run_lines_suite('s3', 'adapt', 's3', gen_s3_cases(seed, tier), seed, tier, log)
 
